@@ -98,10 +98,18 @@ def cases(draw):
                 parts.append(['lit', draw(_lit)])
         # newlines only inside a value (a configured multi-line value never
         # starts or ends with one)
-        if parts and parts[0][0] == 'lit':
-            parts[0][1] = parts[0][1].lstrip('\n')
-        if parts and parts[-1][0] == 'lit':
-            parts[-1][1] = parts[-1][1].rstrip('\n')
+        for part in parts:
+            if part[0] != 'lit':
+                break
+            part[1] = part[1].lstrip('\n')
+            if part[1]:
+                break
+        for part in reversed(parts):
+            if part[0] != 'lit':
+                break
+            part[1] = part[1].rstrip('\n')
+            if part[1]:
+                break
         out.append({'name': name, 'parts': parts})
     return {'vars': out, 'param_var': draw(st.integers(0, 5)) == 0}
 
